@@ -156,6 +156,9 @@ pub fn some_len(r: &mut Rng, max: usize) -> usize {
 
 /// sequence over an alphabet `alpha` (actual symbol values) with a given shape
 pub fn shaped_seq(r: &mut Rng, n: usize, alpha: &[u128], shape: u64) -> Vec<u128> {
+    if n == 0 || alpha.is_empty() {
+        return vec![];
+    }
     let a = alpha.len();
     let mut v = Vec::with_capacity(n);
     // diff-directed: one symbol occurs *exactly* a hint-derived number of times (spread, at the start, or at
